@@ -90,11 +90,16 @@ def enc(mode, v):
     return f2b(v)
 
 
+OBJS = {k: c() for k, c in CLASSES.items()}
+
+
 def run_job(job):
     mode = job["mode"]
     table = [(dec(mode, r), i) for r, i in job["table"]]
     out = []
-    objs = {k: c() for k, c in CLASSES.items()}
+    # ONE lifting object per scheme for all tables of this driver process, reset() between uses — as the event handlers
+    # use theirs for a whole run (seeded change C05-10: a total cached across reset() shows only on the second table)
+    objs = OBJS
     for q in job["queries"]:
         scheme, active, u1, u2, want_state, u2b = q
         actives = set(active) if isinstance(active, list) else {active}
